@@ -884,7 +884,8 @@ def rootless(c):
 def rec_batches(cases, chosen, cap=60):
     groups = defaultdict(list)
     for ci in chosen:
-        groups[(json.dumps(cases[ci]["W"]["root"], sort_keys=True), rootless(cases[ci]))].append((ci, cases[ci]))
+        # worlds whose exit status the contract leaves open (mayfail) never share a run with the others
+        groups[(json.dumps(cases[ci]["W"]["root"], sort_keys=True), bool(cases[ci].get("mayfail")))].append((ci, cases[ci]))
     batches = []
     for key in sorted(groups):
         g = groups[key]
@@ -953,11 +954,22 @@ def rec_judge(ctx, cases, results):
             if rr.panicked:
                 ctx.violation({"kind": "recursive-panic", "cmd": what}, {"batch": bi, "run": rr.brief()})
         if sc.code != 0 or res.code != 0:
+            if all(c.get("mayfail") for _, c in batch):
+                ctx.cov["recursive_worlds_with_open_exit_status_that_failed"] = ctx.cov.get("recursive_worlds_with_open_exit_status_that_failed", 0) + len(batch)
+                continue                     # a configured package with nothing to mock anywhere: failing is allowed
+            # the world the error message names (a batch holds many): that one goes into the replay file
+            failing = None
+            for m in re.finditer(r"/(w\d{5,})/", (sc if sc.code != 0 else res).err + (sc if sc.code != 0 else res).out):
+                failing = next(((ci, c) for ci, c in batch if f"w{ci:05d}" == m.group(1)), None)
+                if failing:
+                    break
+            fw = failing[1] if failing else batch[0][1]
             ctx.violation({"kind": "recursive-exit", "cmd": "showconfig" if sc.code != 0 else "run",
-                           "recursive_package_without_go_files": rootless(batch[0][1])},
-                          {"batch": bi, "showconfig": sc.brief(), "run": res.brief(), "root": batch[0][1]["W"]["root"],
-                           "first_world": batch[0][1]["W"], "paths": node_paths(batch[0][1]),
-                           "why": "every configured package exists and has Go files: the run must succeed"})
+                           "recursive_package_without_go_files": rootless(fw)},
+                          {"batch": bi, "showconfig": sc.brief(), "run": res.brief(), "W": fw["W"], "paths": node_paths(fw),
+                           "world_named_by_the_error": bool(failing), "world_dir": f"w{failing[0]:05d}" if failing else None,
+                           "why": "every configured package of this run has Go files of its own or, being recursive, in a "
+                                  "sub-package go list finds: the run must succeed"})
             continue
         try:
             shown = yaml.safe_load(sc.out)["packages"] or {}
